@@ -164,6 +164,14 @@ def poly(node: ast.AST, env: Optional[Dict[str, ast.AST]] = None, _depth: int = 
             a, b = sorted([str(l), str(r)])
             return Poly.atom(f"({a}){opn}({b})")
         return Poly.atom(f"({l}){opn}({r})")
+    if isinstance(node, (ast.Call, ast.Attribute)) and env:
+        try:
+            key = ast.unparse(node)
+        except Exception:
+            key = None
+        if key is not None and key in env and env[key] is not None and (isinstance(node, ast.Attribute) or not (node.args or node.keywords)):
+            sub = {k: v for k, v in env.items() if k != key}
+            return poly(env[key], sub, _depth + 1)
     if isinstance(node, ast.Call):
         f = node.func
         fname = ast.unparse(f)
@@ -231,9 +239,13 @@ def equal(a: ast.AST, b_text: str, env=None, rename: Optional[Dict[str, str]] = 
 
 def same(node: ast.AST, expected_text: str, env=None) -> bool:
     """canon(node with locals inlined) == canon(expected expression text)."""
+    if node is None:
+        return False
     return canon(node, env) == canon(parse_expr(expected_text))
 
 
 def same_any(node: ast.AST, expected_texts, env=None) -> bool:
+    if node is None:
+        return False
     c = canon(node, env)
     return any(c == canon(parse_expr(t)) for t in expected_texts)
